@@ -205,13 +205,22 @@ def run(ck, w):
         elif not calls - {"index::entry::IndexEntry::metadata_from"} and params and all(
                 p[0] == "basis_entry" and "addrs" in p[1] for p in params):
             # presence check: `.all(|a| block_dir.contains(..))` must have returned true
-            alls = common.presence_tests(w, cfb)
+            alls = common.presence_guards(w, cfb)
             closure_ok = bool(alls)
             g1 = ck.ob("C03.3d.reuse", "basis addresses are reused only when all(|a| block_dir.contains(a.hash)) was true")
             if not closure_ok:
                 ck.fail(g1, cfb.name, "no contains() presence test", "no Iterator::all over BlockDir::contains found", site)
             else:
-                rules.guarded_by_bool(ck, g1, cfb, alls, True, [bb], "all(contains)", "reuse of basis addrs")
+                pe_ = set()
+                for g_ in alls:
+                    pe_ |= g_.true_edges
+                if not pe_:
+                    ck.fail(g1, cfb.name, "all(contains) result not branched on", "the result of the presence test does not control a branch in copy_file", alls[0].site())
+                elif not cfb.must_pass_edges(pe_, bb):
+                    ck.fail(g1, cfb.name, "reuse of basis addrs not guarded by all(contains)==True",
+                            "reuse of basis addrs is reachable without all(contains) being True: %s" % rules.witness(cfb, bb, removed_edges=pe_), site)
+                else:
+                    ck.ok(g1, "1 target(s) behind all(contains)==True", sites=[g_.site() for g_ in alls], instances=1)
         else:
             ck.fail(o, cfb.name, "IndexEntry.addrs from unexpected source",
                     "addrs derives from %s" % flow.origin_summary(orig), site)
